@@ -136,7 +136,7 @@ def build(read):
         "// GENERATED on every run by /verif/verus/pairs.py from /repo's working tree - do not edit",
         parts.HEADER.replace("use std::collections::HashSet;\n", ""), parts.OPAQUE_SCOPES,
         sel, err_text, parts.ast_text(b, read), parts.value_items(b, read), vm, MODEL,
-        parts.value_ctors(b, read, ["new_val_ref_with_no_source", "new_str", "new_int", "new_list", "new_str_from_string"]),
+        parts.value_ctors(b, read, ["new_val_ref_with_no_source", "new_val_ref_with_source", "new_null", "new_bool", "new_int", "new_str", "new_str_from_string", "new_list", "new_object"]),
         "// ---- function under contract (verbatim body; contract text inserted at anchors)",
         f, parts.FOOTER,
     ])
